@@ -6,7 +6,7 @@
    floats, so NaN, inf and -0.0 are just values); add is an arbitrary binary operation (np.add on the
    data dtype) — the stable sort keeps duplicates in their given order, so no algebraic law is needed. *)
 From Coq Require Import ZArith List Bool.
-From Verif Require Import Py Shape COO GCXS COOP S_convert Convert ConvertL ConvertM ConvertG ConvertP.
+From Verif Require Import Py Shape COO GCXS COOP S_convert S_scipy Convert ScipyConv ConvertL ConvertM ConvertG ConvertP ConvertU ScipyP.
 Import ListNotations.
 Open Scope Z_scope.
 
@@ -215,3 +215,91 @@ Theorem representation_independence :
     run_chain veqb add (RCoo c0) (hops ++ [FCoo]) = Ok (RCoo c0).
 Proof. exact representation_independence_proof. Qed.
 Print Assumptions representation_independence.
+
+(* ---------------------------------------------------------------- every well-formed GCXS is a compressed form *)
+(* gcxs_strictb = gcxs_wfb, plus: a 0-d / 1-d GCXS keeps compressed_axes and indptr empty (gcxs_wfb does
+   not look at those unused fields).  Surjectivity of _from_coo: *)
+Theorem from_coo_tocoo :
+  forall (V : Type) (veqb : V -> V -> bool) (add : V -> V -> V) (g : gcxs V),
+    gcxs_strictb V g = true -> gcxs_from_coo (gcxs_tocoo veqb add g) (g_caxes g) = g.
+Proof. exact from_coo_tocoo_proof. Qed.
+Print Assumptions from_coo_tocoo.
+
+(* the well-formed pruned GCXS record with given shape, compressed axes and fill value is determined
+   by its elements *)
+Theorem gcxs_unique :
+  forall (V : Type) (veqb : V -> V -> bool) (add : V -> V -> V),
+    (forall a b, veqb a b = true <-> a = b) ->
+    forall g1 g2 : gcxs V,
+    gcxs_strictb V g1 = true -> gcxs_strictb V g2 = true ->
+    g_shape g1 = g_shape g2 -> g_caxes g1 = g_caxes g2 -> g_fill g1 = g_fill g2 ->
+    forallb (fun v => negb (veqb v (g_fill g1))) (g_data g1) = true ->
+    forallb (fun v => negb (veqb v (g_fill g2))) (g_data g2) = true ->
+    (forall ix, in_range (g_shape g1) ix -> gden g1 ix = gden g2 ix) ->
+    g1 = g2.
+Proof. exact gcxs_unique_proof. Qed.
+Print Assumptions gcxs_unique.
+
+(* change_compressed_axes of an ARBITRARY well-formed GCXS (ndim >= 2): well-formed, same elements,
+   and equal to compressing its COO form directly *)
+Theorem change_axes_any :
+  forall (V : Type) (veqb : V -> V -> bool) (add : V -> V -> V) (g : gcxs V) (ca' : list Z),
+    gcxs_wfb g = true -> (2 <= length (g_shape g))%nat ->
+    caxes_okb (Z.of_nat (length (g_shape g))) ca' = true ->
+    gcxs_wfb (gcxs_change_axes g ca') = true
+    /\ (forall ix, gden (gcxs_change_axes g ca') ix = gden g ix)
+    /\ gcxs_change_axes g ca' = gcxs_from_coo (gcxs_tocoo veqb add g) ca'.
+Proof. exact change_axes_any_proof. Qed.
+Print Assumptions change_axes_any.
+
+(* ---------------------------------------------------------------- the scipy.sparse hops (Model/ScipyConv.v) *)
+(* GCXS / CSR / CSC from a csr/csc matrix, canonical or not (unsorted indices, repeated positions): the
+   result is well-formed and every element is the sum of the values stored for its position — the
+   re-canonicalisation condition, the axis choice and the constructor flags are those extracted from
+   the source (Gen/S_scipy.v) *)
+Theorem from_scipy_correct :
+  forall (V : Type) (veqb : V -> V -> bool) (add : V -> V -> V) (zero : V) (m : scs V),
+    sc_structb m = true ->
+    let g := gcxs_from_scipy veqb add zero m in
+    gcxs_wfb g = true /\ g_shape g = sc_shape m /\ g_caxes g = [sc_axis m] /\ g_fill g = zero
+    /\ forall ix, in_range (sc_shape m) ix -> gden g ix = sc_meaning V add zero m ix.
+Proof. exact from_scipy_correct_proof. Qed.
+Print Assumptions from_scipy_correct.
+
+Theorem gcxs_scipy_roundtrip :
+  forall (V : Type) (veqb : V -> V -> bool) (add : V -> V -> V) (zero : V),
+    (forall a b, veqb a b = true <-> a = b) ->
+    forall (g : gcxs V) (d0 d1 a : Z),
+    gcxs_wfb g = true -> g_shape g = [d0; d1] -> g_caxes g = [a] -> (a = 0 \/ a = 1) -> g_fill g = zero ->
+    exists m, gcxs_to_scipy veqb zero g = Ok m /\ sc_structb m = true /\ gcxs_from_scipy veqb add zero m = g.
+Proof. exact gcxs_scipy_roundtrip_proof. Qed.
+Print Assumptions gcxs_scipy_roundtrip.
+
+Theorem coo_scipy_roundtrip :
+  forall (V : Type) (veqb : V -> V -> bool) (add : V -> V -> V) (zero : V),
+    (forall a b, veqb a b = true <-> a = b) ->
+    forall (c : coo V) (d0 d1 : Z),
+    canonical V c -> c_shape c = [d0; d1] -> c_fill c = zero ->
+    exists flag sh coords data,
+      coo_to_scipy veqb zero c = Ok (flag, sh, coords, data) /\ coo_from_scipy veqb add zero flag sh coords data = c.
+Proof. exact coo_scipy_roundtrip_proof. Qed.
+Print Assumptions coo_scipy_roundtrip.
+
+Theorem coo_from_scipy_den :
+  forall (V : Type) (veqb : V -> V -> bool) (add : V -> V -> V) (zero : V)
+         (sh : shape) (coords : list idx) (data : list V),
+    Forall (in_range sh) coords -> length data = length coords ->
+    let r := coo_from_scipy veqb add zero false sh coords data in
+    canonical V r /\ c_shape r = sh /\ c_fill r = zero /\
+    forall ix, in_range sh ix ->
+      den r ix = match sum_list V add (dup_vals V (combine coords data) ix) with Some s => s | None => zero end.
+Proof. exact coo_from_scipy_den_proof. Qed.
+Print Assumptions coo_from_scipy_den.
+
+Example scipy_nonvacuous :
+  sc_structb ex_m = true /\ sc_canonicalb ex_m = false /\
+  gcxs_from_scipy Z.eqb Z.add 0 ex_m = mkGCXS [2; 3] [0] [2; 4; 4] [0; 2; 1] [0; 2; 3] 0 /\
+  gcxs_strictb Z (gcxs_from_scipy Z.eqb Z.add 0 ex_m) = true /\
+  gcxs_to_scipy Z.eqb 0 (gcxs_from_coo ex_c [1]) = Ok (mkSCS true [2; 3] [7; 5; 9] [1; 0; 1] [0; 1; 2; 3]) /\
+  gcxs_from_scipy Z.eqb Z.add 0 (mkSCS true [2; 3] [7; 5; 9] [1; 0; 1] [0; 1; 2; 3]) = gcxs_from_coo ex_c [1].
+Proof. exact ex_scipy. Qed.
